@@ -326,28 +326,75 @@ func (t *translator) analyze() {
 			t.idiom("critical-section "+typ, false, typ+".Execute not found")
 			continue
 		}
-		recv := t.recvObj(fd)
 		li := t.lockInfoOf(fd)
-		shape := len(li.locks) == 1 && len(li.unlocks) == 1 && li.nestedLocking == 0 && li.defers == 0 && li.locks[0].Pos() < li.unlocks[0].Pos()
+		// shape A: the critical section is written out in Execute
+		shapeA := len(li.locks) == 1 && len(li.unlocks) == 1 && li.nestedLocking == 0 && li.defers == 0 && li.locks[0].Pos() < li.unlocks[0].Pos()
+		// shape B: Execute itself does no locking; it calls, in ONE top-level statement, ONE helper method of the same receiver whose
+		// body starts with `Lock()` and `defer Unlock()` of the receiver's mutex and does no other locking: the critical section is the
+		// rest of the helper's body, released on every exit (return or panic) before the helper's caller goes on
+		var helper *ast.FuncDecl
+		var helperStmt ast.Stmt
+		var hdefer *ast.DeferStmt
+		shapeB := false
+		if !shapeA && len(li.locks) == 0 && len(li.unlocks) == 0 && len(li.deferredUnlocks) == 0 && li.nestedLocking == 0 && li.defers == 0 {
+			helper, helperStmt = t.helperOf(fd)
+			if helper != nil {
+				hl := t.lockInfoOf(helper)
+				if len(hl.locks) == 1 && len(hl.unlocks) == 0 && len(hl.deferredUnlocks) == 1 && hl.nestedLocking == 0 && hl.defers == 1 &&
+					len(helper.Body.List) >= 2 && helper.Body.List[0] == ast.Stmt(hl.locks[0]) && helper.Body.List[1] == ast.Stmt(hl.deferredUnlocks[0]) &&
+					t.sameMutex(hl.locks[0].X.(*ast.CallExpr), hl.deferredUnlocks[0].Call) && t.callersOf(typ, helper.Name.Name) == 1 {
+					shapeB = true
+					hdefer = hl.deferredUnlocks[0]
+				}
+			}
+		}
+		shape := shapeA || shapeB
+		// bodies that make up one execution, and the positions inside the critical section
+		bodies := []*ast.FuncDecl{fd}
+		if shapeB {
+			bodies = append(bodies, helper)
+		}
 		inside := func(p token.Pos) bool {
-			return shape && li.locks[0].End() <= p && p < li.unlocks[0].Pos()
+			switch {
+			case shapeA:
+				return li.locks[0].End() <= p && p < li.unlocks[0].Pos()
+			case shapeB:
+				return hdefer.End() <= p && p < helper.Body.Rbrace
+			}
+			return false
+		}
+		// in Execute's own text: where the mutex has been released / has not been taken yet
+		var releasedAt, takenAt token.Pos
+		switch {
+		case shapeA:
+			releasedAt, takenAt = li.unlocks[0].End(), li.locks[0].Pos()
+		case shapeB:
+			releasedAt, takenAt = helperStmt.End(), helperStmt.Pos()
 		}
 		storesOK, stores := true, 0
-		ast.Inspect(fd.Body, func(n ast.Node) bool {
-			if as, ok := n.(*ast.AssignStmt); ok {
-				for _, l := range as.Lhs {
-					if _, ok := t.fieldOf(l, recv); ok {
-						stores++
-						if !inside(l.Pos()) {
-							storesOK = false
+		for _, b := range bodies {
+			recv := t.recvObj(b)
+			ast.Inspect(b.Body, func(n ast.Node) bool {
+				if as, ok := n.(*ast.AssignStmt); ok {
+					for _, l := range as.Lhs {
+						if _, ok := t.fieldOf(l, recv); ok {
+							stores++
+							if !inside(l.Pos()) {
+								storesOK = false
+							}
 						}
 					}
 				}
-			}
-			return true
-		})
-		t.idiom("critical-section "+typ, shape && storesOK && stores > 0,
-			fmt.Sprintf("%s.Execute has exactly one Lock and one Unlock of its mutex, both top-level statements in this order, no defer, and all %d assignments to receiver fields lie between them", typ, stores))
+				return true
+			})
+		}
+		if shapeB {
+			t.idiom("critical-section "+typ, storesOK && stores > 0,
+				fmt.Sprintf("%s.Execute does no locking itself and calls %s.%s in one top-level statement (its only caller); %s starts with one Lock and a deferred Unlock of the receiver's mutex and does no other locking, and all %d assignments to receiver fields lie below that defer", typ, typ, helper.Name.Name, helper.Name.Name, stores))
+		} else {
+			t.idiom("critical-section "+typ, shape && storesOK && stores > 0,
+				fmt.Sprintf("%s.Execute has exactly one Lock and one Unlock of its mutex, both top-level statements in this order, no defer, and all %d assignments to receiver fields lie between them", typ, stores))
+		}
 
 		// user calls and where they are
 		type site struct {
@@ -356,26 +403,29 @@ func (t *translator) analyze() {
 			call *ast.CallExpr
 		}
 		var sites []site
-		ast.Inspect(fd.Body, func(n ast.Node) bool {
-			c, ok := n.(*ast.CallExpr)
-			if !ok {
-				return true
-			}
-			s, ok := c.Fun.(*ast.SelectorExpr)
-			if !ok {
-				return true
-			}
-			if f, ok := t.fieldOf(s, recv); ok && isFuncType(info.TypeOf(s)) {
-				sites = append(sites, site{c.Pos(), f, c})
-			} else if sel, ok := info.Selections[s]; ok && sel.Kind() == types.MethodVal {
-				if namedIs(info.TypeOf(s.X), jobPath, "HTTPHandler") && s.Sel.Name == "Do" {
-					sites = append(sites, site{c.Pos(), "Do", c})
-				} else if namedIs(info.TypeOf(s.X), "io", "ReadCloser") && s.Sel.Name == "Close" {
-					sites = append(sites, site{c.Pos(), "Close", c})
+		for _, b := range bodies {
+			recv := t.recvObj(b)
+			ast.Inspect(b.Body, func(n ast.Node) bool {
+				c, ok := n.(*ast.CallExpr)
+				if !ok {
+					return true
 				}
-			}
-			return true
-		})
+				s, ok := c.Fun.(*ast.SelectorExpr)
+				if !ok {
+					return true
+				}
+				if f, ok := t.fieldOf(s, recv); ok && isFuncType(info.TypeOf(s)) {
+					sites = append(sites, site{c.Pos(), f, c})
+				} else if sel, ok := info.Selections[s]; ok && sel.Kind() == types.MethodVal {
+					if namedIs(info.TypeOf(s.X), jobPath, "HTTPHandler") && s.Sel.Name == "Do" {
+						sites = append(sites, site{c.Pos(), "Do", c})
+					} else if namedIs(info.TypeOf(s.X), "io", "ReadCloser") && s.Sel.Name == "Close" {
+						sites = append(sites, site{c.Pos(), "Close", c})
+					}
+				}
+				return true
+			})
+		}
 		count := func(what string) (n int, first site) {
 			for _, s := range sites {
 				if s.what == what {
@@ -387,9 +437,11 @@ func (t *translator) analyze() {
 			}
 			return
 		}
+		inExecute := func(p token.Pos) bool { return fd.Body.Lbrace < p && p < fd.Body.Rbrace }
+		recv := t.recvObj(fd)
 		if typ == "ShellJob" || typ == "CurlJob" {
 			n, cb := count("callback")
-			ok := n == 1 && shape && cb.pos > li.unlocks[0].End()
+			ok := n == 1 && shape && inExecute(cb.pos) && cb.pos > releasedAt
 			// the one call site is the only statement of a top-level `if <recv>.callback != nil { … }` without else
 			if ok {
 				ok = false
@@ -411,20 +463,112 @@ func (t *translator) analyze() {
 					}
 				}
 			}
-			t.idiom("callback-site "+typ, ok, fmt.Sprintf("%s.Execute calls its callback at exactly one site (found %d), the only statement of a top-level `if <job>.callback != nil`, after the Unlock", typ, n))
+			after := "after the Unlock"
+			if shapeB {
+				after = "after the call of " + helper.Name.Name + " (which has released the mutex when it returns)"
+			}
+			t.idiom("callback-site "+typ, ok, fmt.Sprintf("%s.Execute calls its callback at exactly one site (found %d), the only statement of a top-level `if <job>.callback != nil`, %s", typ, n, after))
 		}
 		if typ == "CurlJob" {
 			nc, cl := count("Close")
 			nd, do := count("Do")
 			ok := nc == 1 && nd == 1 && cl.pos < do.pos && inside(cl.pos) && inside(do.pos)
-			t.idiom("close-before-do CurlJob", ok, fmt.Sprintf("CurlJob.Execute has one Body.Close() (found %d) and one httpClient.Do (found %d), the Close first, both between Lock and Unlock", nc, nd))
+			where := "both between Lock and Unlock"
+			if shapeB {
+				where = "both in " + helper.Name.Name + " below the deferred Unlock"
+			}
+			t.idiom("close-before-do CurlJob", ok, fmt.Sprintf("CurlJob.Execute has one Body.Close() (found %d) and one httpClient.Do (found %d), the Close first, %s", nc, nd, where))
 		}
 		if typ == "FunctionJob" {
 			n, fc := count("function")
-			ok := n == 1 && shape && fc.pos < li.locks[0].Pos()
+			ok := n == 1 && shape && inExecute(fc.pos) && fc.pos < takenAt
 			t.idiom("function-call FunctionJob", ok, fmt.Sprintf("FunctionJob.Execute calls f.function at exactly one site (found %d), before the Lock", n))
 		}
 	}
+}
+
+// helperOf: the single call `<recv>.<method>(…)` of a method of the receiver's own type in the body of `fd`, made by a top-level
+// statement (`x := recv.m(…)`, `x = recv.m(…)` or `recv.m(…)`); nil when there is none or more than one
+func (t *translator) helperOf(fd *ast.FuncDecl) (*ast.FuncDecl, ast.Stmt) {
+	recv := t.recvObj(fd)
+	typ := recvTypeName(fd)
+	isSelfCall := func(c *ast.CallExpr) (string, bool) {
+		s, ok := c.Fun.(*ast.SelectorExpr)
+		if !ok {
+			return "", false
+		}
+		id, ok := s.X.(*ast.Ident)
+		if !ok || recv == nil || t.jb.info.Uses[id] != recv {
+			return "", false
+		}
+		if sel, ok := t.jb.info.Selections[s]; !ok || sel.Kind() != types.MethodVal {
+			return "", false
+		}
+		return s.Sel.Name, true
+	}
+	total := 0
+	ast.Inspect(fd.Body, func(n ast.Node) bool {
+		if c, ok := n.(*ast.CallExpr); ok {
+			if _, ok := isSelfCall(c); ok {
+				total++
+			}
+		}
+		return true
+	})
+	if total != 1 {
+		return nil, nil
+	}
+	for _, s := range fd.Body.List {
+		var c *ast.CallExpr
+		switch x := s.(type) {
+		case *ast.ExprStmt:
+			c, _ = x.X.(*ast.CallExpr)
+		case *ast.AssignStmt:
+			if len(x.Rhs) == 1 {
+				c, _ = x.Rhs[0].(*ast.CallExpr)
+			}
+		}
+		if c == nil {
+			continue
+		}
+		if name, ok := isSelfCall(c); ok {
+			if h := t.jb.funcDecl(typ, name); h != nil && h.Body != nil && h != fd {
+				return h, s
+			}
+		}
+	}
+	return nil, nil
+}
+
+// callersOf: the number of call sites `<x>.<name>(…)` of the method `name` of `typ` in the package's non-test files
+func (t *translator) callersOf(typ, name string) int {
+	n := 0
+	for _, f := range t.jb.files {
+		ast.Inspect(f, func(m ast.Node) bool {
+			c, ok := m.(*ast.CallExpr)
+			if !ok {
+				return true
+			}
+			s, ok := c.Fun.(*ast.SelectorExpr)
+			if !ok || s.Sel.Name != name {
+				return true
+			}
+			if sel, ok := t.jb.info.Selections[s]; ok && sel.Kind() == types.MethodVal {
+				if tn, _, ok := t.jobStruct(sel.Recv()); ok && tn == typ {
+					n++
+				}
+			}
+			return true
+		})
+	}
+	return n
+}
+
+// sameMutex: the two calls are methods of the same `<recv>.<field>`
+func (t *translator) sameMutex(a, b *ast.CallExpr) bool {
+	sa, ok1 := a.Fun.(*ast.SelectorExpr)
+	sb, ok2 := b.Fun.(*ast.SelectorExpr)
+	return ok1 && ok2 && t.src(sa.X) == t.src(sb.X)
 }
 
 func (t *translator) isNilExpr(e ast.Expr) bool {
